@@ -195,6 +195,14 @@ def run(ctx):
                         ok_unit = r.flux.unit.is_equivalent(UNITS[b][0]) and r.error.unit.is_equivalent(UNITS[b][0])
                     except Exception:
                         pass
+                    try:          # "with a requested flux unit": the quantities returned are expressed in it (their .value is in that unit)
+                        same_unit = bool(r.flux.unit == UNITS[b][0]) and bool(r.error.unit == UNITS[b][0])
+                    except Exception:
+                        same_unit = False
+                    if ok_unit and not same_unit:
+                        ctx.violation('read:returned-in-another-unit:%s->%s' % (a, b), 'the values are returned in another unit than the requested one (their numbers are then off by the ratio of the units)',
+                                      dict(wit, got_unit=str(r.flux.unit), requested=b))
+                        continue
                     if not ok_unit:
                         ctx.violation('read:unit-not-requested:%s' % b, 'the values returned are not in (a unit of the kind of) the requested unit',
                                       dict(wit, got_unit=str(getattr(r.flux, 'unit', None))))
